@@ -1,9 +1,10 @@
 #!/bin/sh
 # Runs every stored seed (on a scratch clone of /repo) against the quick tier of its
-# property's check and prints one line per seed.  Usage: tools/seed_regression.sh [tier]
+# property's check and prints one line per seed.  Usage: [SEEDS="name ..."] tools/seed_regression.sh [tier]
 TIER="${1:-quick}"
 for d in /verif/seeded/*/; do
   name=$(basename "$d")
+  if [ -n "$SEEDS" ]; then case " $SEEDS " in *" $name "*) ;; *) continue;; esac; fi
   prop=$(python3 -c "import json;print(json.load(open('$d/meta.json'))['property'])")
   patch="$d/patch.diff"
   [ -f "$d/patch_current.diff" ] && patch="$d/patch_current.diff"
